@@ -332,7 +332,11 @@ def run_mhist(ops):
     try:
         for op in ops:
             if op[0] == "new":
-                accs.append(dict(op[1])); engines.append(force_mod.Force(cv(op[1]))); refs.append(None)
+                given = dict(op[1])
+                # exact mode: the default density is a float literal (0.85); left as it is, density * layerWidth would be rounded and a layer
+                # that needs exactly that much would fit here and not in the model — pass its exact value explicitly
+                given.setdefault("density", force_mod.DEFAULT_OPTIONS["density"])
+                accs.append(dict(op[1])); engines.append(force_mod.Force(cv(given))); refs.append(None)
                 cur = len(engines) - 1
                 enc.append("E~" + _eopts(accs[cur]))
             elif op[0] == "switch":
@@ -355,7 +359,7 @@ def run_mhist(ops):
                 obs.append("%d>%s" % (cur, got))
                 trace.append({"engine": cur, "opts": {k: (v if k == "algorithm" or v is None else str(Fraction(v))) for k, v in accs[cur].items()},
                               "nodes": [[str(p), str(w), i] for p, w, i in now], "got": got})
-                fresh = force_mod.Force(cv(accs[cur]))
+                fresh = force_mod.Force(cv(dict({"density": force_mod.DEFAULT_OPTIONS["density"]}, **accs[cur])))
                 if now:
                     fresh.nodes([Node(p, w, data={"i": i}) for p, w, i in now])
                 fresh.compute()
